@@ -136,8 +136,9 @@ func genGraph(rng *rand.Rand, p genParams, names map[int][]byte) model.Graph {
 				// now and then a non-canonical spelling of the mode with the same file-type bits (old or
 				// foreign repositories have them): the kind of the entry is decided by the type bits alone
 				if rng.Intn(8) == 0 {
-					alt := map[string][]string{"file": {"100664", "100600", "100444"}, "exec": {"100775", "100700"},
-						"tree": {"040000"}, "link": {"120777"}, "sub": {"160755"}}[e.K]
+					// (also with setuid / setgid / sticky bits, as `git mktree` stores them when told to)
+					alt := map[string][]string{"file": {"100664", "100600", "100444", "101644", "102644"}, "exec": {"100775", "100700", "104755"},
+						"tree": {"040000", "42755", "41000", "040755"}, "link": {"120777", "121000"}, "sub": {"160755", "162000"}}[e.K]
 					e.Mode = alt[rng.Intn(len(alt))]
 				}
 				es = append(es, e)
@@ -641,8 +642,20 @@ func rootKindCases(prefix string) []cases.ScanCase {
 		e := fmt.Sprintf("{hex:%s%d}", k, i)
 		return cases.RootSpec{O: model.Oid{K: k, I: i}, Walk: true, IsRef: false, Name: e, Kind: rootKindOf(e)}
 	}
-	rootsArgs := []cases.RootSpec{m2, arg("b", 2), arg("t", 2), arg("g", 1), arg("b", 2)}
-	mk("as-arguments", rootsArgs, []string{"{hex:b2}", "{hex:t2}", "{hex:g1}", "{hex:b2}"}, "full")
+	rootsArgs := []cases.RootSpec{m2, arg("b", 2), arg("t", 2), arg("g", 1), arg("b", 2), arg("c", 1)}
+	mk("as-arguments", rootsArgs, []string{"{hex:b2}", "{hex:t2}", "{hex:g1}", "{hex:b2}", "{hex:c1}"}, "full")
+	// ROOT arguments that are other spellings of references (same object): by name, and by a short name that a
+	// branch and a tag share (git resolves it to the tag: refs/tags/ comes before refs/heads/)
+	named := func(k string, i int, e string) cases.RootSpec {
+		return cases.RootSpec{O: model.Oid{K: k, I: i}, Walk: true, IsRef: false, Name: e, Kind: rootKindOf(e)}
+	}
+	un := func(r cases.RootSpec) cases.RootSpec { r.Walk = false; return r }
+	mk("argument-names-a-reference", []cases.RootSpec{un(main), un(ref("g", 3, "refs/tags/v1")), named("c", 1, "refs/heads/main"), named("g", 3, "v1"), named("c", 1, "main")},
+		[]string{"refs/heads/main", "v1", "main"}, "full")
+	mk("ambiguous-short-name", []cases.RootSpec{un(main), un(ref("c", 1, "refs/heads/rel")), un(ref("t", 2, "refs/tags/rel")), named("t", 2, "rel")},
+		[]string{"rel"}, "full")
+	mk("ambiguous-short-name-with-branches", []cases.RootSpec{main, ref("c", 1, "refs/heads/rel"), un(ref("g", 2, "refs/tags/rel")), named("g", 2, "rel")},
+		[]string{"--branches", "rel"}, "full")
 	return out
 }
 
